@@ -55,3 +55,43 @@ fn attack_maps_equal_the_walked_geometry() {
         }
     }
 }
+
+/// the squares a slider's rays pass through before their last square (the blockers that matter)
+fn relevance(sq: i32, dirs: &[(i32, i32)]) -> u64 {
+    let mut out = 0u64;
+    for (df, dr) in dirs {
+        let (mut f, mut r) = (sq % 8 + df, sq / 8 + dr);
+        while (0..8).contains(&(f + df)) && (0..8).contains(&(r + dr)) {
+            out |= 1u64 << (r * 8 + f);
+            f += df; r += dr;
+        }
+    }
+    out
+}
+
+/// EXHAUSTIVE over the blockers that matter: every subset of the relevance mask, every square, rook and bishop
+/// (102,400 + 5,248 cases) - the same space the magic lookup tables are indexed by
+#[test]
+fn slider_attack_maps_equal_the_walked_geometry_for_every_relevant_blocker_set() {
+    let rook = [(1, 0), (-1, 0), (0, 1), (0, -1)];
+    let bishop = [(1, 1), (1, -1), (-1, 1), (-1, -1)];
+    let mut mg = MoveGenerator::new();
+    for (piece, dirs) in [(Piece::Rook, &rook[..]), (Piece::Bishop, &bishop[..])] {
+        for sq in 0..64i32 {
+            let mask = relevance(sq, dirs);
+            let mut subset = 0u64;
+            loop {
+                let mut b = Board::new();
+                b.put(Bitboard(1u64 << sq), piece, Color::White).unwrap();
+                let mut bits = subset;
+                while bits != 0 { let i = bits.trailing_zeros(); b.put(Bitboard(1u64 << i), Piece::Knight, Color::Black).unwrap(); bits &= bits - 1; }
+                b.lose_castle_rights(0b1111);
+                let got = mg.get_attack_targets(&b, Color::White).0 & !(1u64 << sq);
+                let expect = walk(subset | (1u64 << sq), sq, dirs, true);
+                assert!(got == expect, "{:?} on square {}, blockers {:#018x}: attack map {:#018x}, geometry says {:#018x}", piece, sq, subset, got, expect);
+                subset = subset.wrapping_sub(mask) & mask;   // Carry-Rippler: next subset of mask
+                if subset == 0 { break; }
+            }
+        }
+    }
+}
